@@ -25,7 +25,7 @@ BAD_EXPECTS = ["one_to_on", "", "ONE_TO_ONE", "many_to_many ", "inner", "1:1"]
 METHOD = {"inner": "inner_join", "left": "join", "full": "full_join"}
 SWAP_EXPECT = {"one_to_one": "one_to_one", "many_to_one": "one_to_many", "one_to_many": "many_to_one",
                "many_to_many": "many_to_many"}
-NVARIANTS = 3 * 3 * 4 * 2 * 2 * 3
+NVARIANTS = 3 * 3 * 4 * 2 * 2 * 4
 
 
 # ------------------------------------------------------------------------------------------------
@@ -68,7 +68,7 @@ POOLS = {
 
 def _variant(v):
     return {"lp": v % 3, "rp": (v // 3) % 3, "mode": (v // 9) % 4, "after": (v // 36) % 2,
-            "listform": (v // 72) % 2, "naming": (v // 144) % 3}
+            "listform": (v // 72) % 2, "naming": (v // 144) % 4}
 
 
 def _payload(side, c, n):
@@ -96,6 +96,10 @@ def _side(spec, side):
         pname = lambda c: f"{'x' if side == 0 else 'y'}{c}"
     elif naming == 1:
         pname = lambda c: f"x{c}"
+    elif naming == 3:
+        # a payload column whose name differs from the key name only by case ('K0' vs 'k0'): both sanitise to the same
+        # accessor; a key given BY NAME must still resolve to the column that carries exactly that name
+        pname = lambda c: "K0" if c == 0 else f"{'x' if side == 0 else 'y'}{c}"
     else:
         pname = lambda c: None if c == 0 else "k0"     # unnamed column / a later column repeating the key name
     payload = [(pname(c), _payload(side, c, n)) for c in range(npl)]
@@ -216,8 +220,85 @@ def _on_wire(itn, on, args):
     return {"form": on["form"], "specs": specs}
 
 
+def _warm(spec, x):
+    """a join result must not depend on earlier calls: build the tables with the pre-edit key cells, run a first join
+    (its outcome is not judged here), then write the final key cells IN PLACE through the live key columns/vectors.
+    Anything the first call cached on the tables or key vectors is now stale."""
+    warm = spec.get("warm")
+    if not warm:
+        return
+    import warnings
+    L, R = x["L"], x["R"]
+    meth = METHOD[spec["kind"]]
+    try:
+        getattr(L, warm.get("first_kind") and METHOD[warm["first_kind"]] or meth)(R, x["lon"], x["ron"], expect=warm.get("first_expect", spec["expect"]))
+    except Exception:
+        pass
+    for side, j, i, _old in warm["edits"]:
+        t = (L, R)[side]
+        on = x["sides"][side][1]["specs"][j]
+        if "name" in on:
+            col = t[on["name"]]
+        elif "col" in on:
+            col = t.cols()[on["col"]]
+        else:
+            col = x["onvecs"][side][j]
+        final = dec(spec[("lk", "rk")[side]][j][i])
+        with warnings.catch_warnings():
+            warnings.simplefilter("ignore")
+            try:
+                col[i] = final
+            except Exception:
+                return "the in-place key edit was refused"
+
+
+def _pre_edit(spec):
+    """the spec with the warm edits undone (what the tables hold before the first call)"""
+    warm = spec.get("warm")
+    if not warm:
+        return spec
+    pre = dict(spec, lk=[list(c) for c in spec["lk"]], rk=[list(c) for c in spec["rk"]])
+    for side, j, i, old in warm["edits"]:
+        pre[("lk", "rk")[side]][j][i] = old
+    return pre
+
+
+def add_warm(rng, spec):
+    """turn a (well-formed, non-empty) case into a warm case: one key cell per edit had another value of the same kind
+    before the first call"""
+    if spec.get("mal"):
+        return spec
+    side = rng.choice([0, 1, 1])
+    cols = spec[("lk", "rk")[side]]
+    if not cols or not cols[0]:
+        return spec
+    edits = []
+    for _ in range(rng.choice([1, 1, 2])):
+        j = rng.randrange(len(cols))
+        i = rng.randrange(len(cols[j]))
+        cur = dec(cols[j][i])
+        if cur is None or isinstance(cur, bool):
+            continue
+        kinds = {type(dec(v)) for v in cols[j] if v is not None}
+        if len(kinds) != 1:
+            continue                       # mixed-kind (object) key columns are not edited
+        pool = [v for v in cols[j] + spec[("rk", "lk")[side]][j] if v is not None and type(dec(v)) is type(cur) and dec(v) != cur]
+        if isinstance(cols[j][i], int):
+            pool += [cols[j][i] + 11, cols[j][i] + 12]
+        if not pool:
+            continue
+        edits.append([side, j, i, rng.choice(pool)])
+    if not edits:
+        return spec
+    return dict(spec, fam=spec["fam"].split(".")[0] + ".warm",
+                warm={"edits": edits, "first_expect": rng.choice(EXPECTS), "first_kind": rng.choice([None, None, "inner", "left", "full"])})
+
+
 def execute(spec):
-    x = expand(spec)
+    x = expand(_pre_edit(spec))
+    refused = _warm(spec, x)
+    if refused:
+        return {"skip": refused}
     L, R = x["L"], x["R"]
     itn = Interner()
     case = {"kind": spec["kind"], "expect": spec["expect"], "L": _tab_wire(itn, L), "R": _tab_wire(itn, R),
